@@ -1126,7 +1126,8 @@ pub fn items(prop: &str, tier: Tier) -> Vec<Item> {
                         if !th && quiet {
                             continue; // 8 million instrumented closure calls take ~30 s: thorough tier only
                         }
-                        let n = 8 * c + 7;
+                        // long enough for the workers spawned after the first lag period to obtain elements
+                        let n = if quiet { 10 * c + 7 } else { 16 * c + 7 };
                         let mut cs = par(case(Src::SRange, 0, ch, t), w, CsSet::Exact(c));
                         cs.input = (0..n).map(|i| i as u8).collect();
                         cs.quiet = quiet;
